@@ -133,16 +133,68 @@ def generate(prop, rng, index, tier):
                     args["Weights"].append(1)
             if "NumberToConsider" in args:
                 args["NumberToConsider"] = min(args["NumberToConsider"], len(args["InFieldNames"]))
+        if rng.random() < 0.08:
+            _spoil(rng, cmd, args)      # a setting the command itself rejects (inside execute, after it has its inputs)
         consumers.append({"name": name, "cmd": cmd, "args": args})
         d = DECL[cmd]
         src = eems.refs_of({"cmd": cmd, "args": args})
         env[name] = env[src[0]] if src else env[producers[0]["name"]]
         (fz if d["fuzzy"] else nf).append(name)
+        r = rng.random()
+        if r < 0.2 and _twin_of(cmd):
+            # the counterpart command (Normalize... / CvtToFuzzy...) on the same field with the same settings
+            tw = _twin_of(cmd)
+            targs = {}
+            for k, v in args.items():
+                k2 = k.replace("Normal", "Fuzzy") if tw.startswith("CvtToFuzzy") else k.replace("Fuzzy", "Normal")
+                if k2 in DECL[tw]["params"]:
+                    targs[k2] = copy.deepcopy(v)
+            tname = "k%d" % len(consumers)
+            consumers.append({"name": tname, "cmd": tw, "args": targs})
+            env[tname] = env[name]
+            (fz if DECL[tw]["fuzzy"] else nf).append(tname)
+        elif r < 0.27:
+            # the very same command again, same settings
+            tname = "k%d" % len(consumers)
+            consumers.append({"name": tname, "cmd": cmd, "args": copy.deepcopy(args)})
+            env[tname] = env[name]
+            (fz if d["fuzzy"] else nf).append(tname)
     order = list(range(len(consumers)))
     return {"engine": ENGINE, "prop": "C09", "config": config, "producers": producers, "consumers": consumers,
             "final_run": rng.random() < 0.3, "repeat_reads": rng.random() < 0.3,
             # who drives the evaluation: the client runs consumers one by one, or adds them all and calls program.run()
             "drive": rng.choice(["stepwise", "stepwise", "program-run"])}
+
+
+TWINS = {"NormalizeCat": "CvtToFuzzyCat", "NormalizeCurve": "CvtToFuzzyCurve",
+         "NormalizeMeanToMid": "CvtToFuzzyMeanToMid", "NormalizeCurveZScore": "CvtToFuzzyCurveZScore"}
+TWINS.update({v: k for k, v in list(TWINS.items())})
+
+
+def _twin_of(cmd):
+    return TWINS.get(cmd)
+
+
+def _spoil(rng, cmd, args):
+    """Turn one setting into something the command rejects when it executes (its inputs are evaluated by then)."""
+    cands = []
+    if "Direction" in args or cmd in ("CvtToBinary", "CvtToFuzzy"):
+        cands.append(("Direction", "Sideways"))
+    if "TruestOrFalsest" in args:
+        cands.append(("TruestOrFalsest", "Sideways"))
+    if "NumberToConsider" in args and isinstance(args.get("InFieldNames"), list):
+        cands.append(("NumberToConsider", len(args["InFieldNames"]) + 1))
+        cands.append(("NumberToConsider", 0))
+    if isinstance(args.get("Weights"), list):
+        cands.append(("Weights", list(args["Weights"]) + [1]))
+    if isinstance(args.get("RawValues"), list) and len(args["RawValues"]) >= 2:
+        cands.append(("RawValues", list(args["RawValues"])[:-1]))
+        cands.append(("RawValues", [args["RawValues"][0]] + list(args["RawValues"])[:-1]))
+    if "TrueThreshold" in args and "FalseThreshold" in args:
+        cands.append(("FalseThreshold", args["TrueThreshold"]))
+    if cands:
+        k, v = rng.choice(cands)
+        args[k] = v
 
 
 # ------------------------------------------------------------------------------------------------
